@@ -96,6 +96,13 @@ def hexDecBytes (tok : String) : Option ByteArray :=
 def hexDec (tok : String) : Option String :=
   (hexDecBytes tok).bind String.fromUTF8?
 
+/-- an `i32` argument (anything else is a malformed request, as it is for the harness) -/
+def i32? (t : String) : Option Int := t.toInt?.bind fun v => if inI32 v then some v else none
+def u32? (t : String) : Option Int := t.toInt?.bind fun v => if inU32 v then some v else none
+def i64? (t : String) : Option Int := t.toInt?.bind fun v => if inI64 v then some v else none
+def u64? (t : String) : Option Int :=
+  t.toInt?.bind fun v => if 0 ≤ v && v ≤ 18446744073709551615 then some v else none
+
 def joinWith (sep : String) (l : List String) : String := sep.intercalate l
 
 def monthOfTok (t : String) : Option Month := t.toInt?.bind Month.ofInt?
@@ -107,7 +114,7 @@ def calOfTok (t : String) : Except String Calendar :=
   else if t == "X" then .ok Calendar.reform1582
   else match t.toList with
     | 'R' :: cs =>
-      match (String.ofList cs).toInt? with
+      match i32? (String.ofList cs) with
       | some r =>
         match Calendar.mkReforming r with
         | .ok c => .ok c
@@ -276,7 +283,7 @@ def answer (line : String) : String :=
   let toks := line.splitOn " "
   match toks with
   | ["reforming", r] =>
-    match r.toInt? with
+    match i32? r with
     | none => "BADREQ"
     | some r =>
       match Calendar.mkReforming r with
@@ -293,43 +300,43 @@ def answer (line : String) : String :=
         | .error _ => false
       s!"{showOptDate c.lastJulianDate} {showOptDate c.firstGregorianDate} {showOptInt c.reformation} {b01 c.isReforming} {b01 c.isProleptic} same={b01 same}"
   | ["at_jdn", ct, j] => withCal ct fun c =>
-      match j.toInt? with
+      match i32? j with
       | some j => withDate c j showDate
       | none => "BADREQ"
   | ["at_ymd", ct, y, m, d] => withCal ct fun c =>
-      match y.toInt?, monthOfTok m, d.toInt? with
+      match i32? y, monthOfTok m, u32? d with
       | some y, some m, some d => showDateRes (c.atYmd y m d)
       | _, _, _ => "BADREQ"
   | ["at_ord", ct, y, o] => withCal ct fun c =>
-      match y.toInt?, o.toInt? with
+      match i32? y, u32? o with
       | some y, some o => showDateRes (c.atOrdinalDate y o)
       | _, _ => "BADREQ"
   | ["year", ct, y] => withCal ct fun c =>
-      match y.toInt? with
+      match i32? y with
       | some y => s!"{showYearKind (c.yearKind y)} {c.yearLength y}"
       | none => "BADREQ"
   | ["shape", ct, y, m] => withCal ct fun c =>
-      match y.toInt?, monthOfTok m with
+      match i32? y, monthOfTok m with
       | some y, some m => showShape c y m
       | _, _ => "BADREQ"
   | ["shapeq", ct, y, m, x] => withCal ct fun c =>
-      match y.toInt?, monthOfTok m, x.toInt? with
+      match i32? y, monthOfTok m, u32? x with
       | some y, some m, some x => showShapeQ c y m x
       | _, _, _ => "BADREQ"
   | ["succ", ct, j] => withCal ct fun c =>
-      match j.toInt? with
+      match i32? j with
       | some j => withDate c j fun d => showOptDate d.succ
       | none => "BADREQ"
   | ["pred", ct, j] => withCal ct fun c =>
-      match j.toInt? with
+      match i32? j with
       | some j => withDate c j fun d => showOptDate d.pred
       | none => "BADREQ"
   | ["walk", ct, j, n] => withCal ct fun c =>
-      match j.toInt?, n.toInt? with
+      match i32? j, n.toInt? with
       | some j, some n => withDate c j fun d => joinWith " " (walk d n.natAbs (decide (n ≥ 0)) [])
       | _, _ => "BADREQ"
   | ["iter", k, ct, j, n] => withCal ct fun c =>
-      match j.toInt?, n.toNat? with
+      match i32? j, n.toNat? with
       | some j, some n => withDate c j fun d =>
           let step := match k with
             | "later" => laterNext | "earlier" => earlierNext
@@ -337,19 +344,19 @@ def answer (line : String) : String :=
           joinWith " " (iterRun step (n + 2) (some d) [])
       | _, _ => "BADREQ"
   | ["cmp_date", c1, j1, c2, j2] => withCal c1 fun a => withCal c2 fun b =>
-      match j1.toInt?, j2.toInt? with
+      match i32? j1, i32? j2 with
       | some j1, some j2 => withDate a j1 fun d1 => withDate b j2 fun d2 =>
           s!"{showOrd (d1.cmp d2)} {b01 (d1.beq d2)} {b01 (d1.hashKey == d2.hashKey)}"
       | _, _ => "BADREQ"
   | ["cmp_cal", c1, c2] => withCal c1 fun a => withCal c2 fun b =>
       s!"{showOrd (a.cmp b)} {b01 (a.beq b)} {b01 (a.hashKey == b.hashKey)}"
   | ["convert", c1, j, c2] => withCal c1 fun a => withCal c2 fun b =>
-      match j.toInt? with
+      match i32? j with
       | some j => withDate a j fun d => match d.convertTo? b with
           | some x => showDate x | none => "PANIC"
       | none => "BADREQ"
   | ["fmt", ct, j] => withCal ct fun c =>
-      match j.toInt? with
+      match i32? j with
       | some j => withDate c j fun d =>
           s!"{hexEnc (String.ofList (fmtDate d))} {hexEnc (String.ofList (fmtDateAlt d))}"
       | none => "BADREQ"
@@ -382,72 +389,73 @@ def answer (line : String) : String :=
       | _, _ => "BADREQ"
   | ["names"] => namesLine
   | ["unix", t] =>
-      match t.toInt? with
+      match i64? t with
       | some t => match unix2jdn t with
           | some (j, s) => s!"{j} {s}"
           | none => "E:Arithmetic"
       | none => "BADREQ"
   | ["jdn2unix", j] =>
-      match j.toInt? with
+      match i32? j with
       | some j => toString (jdn2unix j)
       | none => "BADREQ"
   | ["at_unix", ct, t] => withCal ct fun c =>
-      match t.toInt? with
+      match i64? t with
       | some t => showAtTime (c.atUnixTime? t)
       | none => "BADREQ"
   | ["system", b, s, n] =>
-      match s.toInt?, n.toInt? with
+      match u64? s, u32? n with
       | some s, some n => match system2jdn (b == "b") s n with
           | some (j, x) => s!"{j} {x}"
           | none => "E:Arithmetic"
       | _, _ => "BADREQ"
   | ["at_system", ct, b, s, n] => withCal ct fun c =>
-      match s.toInt?, n.toInt? with
+      match u64? s, u32? n with
       | some s, some n => showAtTime (c.atSystemTime? (b == "b") s n)
       | _, _ => "BADREQ"
   | ["weekday", j] =>
-      match j.toInt? with
+      match i32? j with
       | some j => match Weekday.forJdn? j with
           | some w => toString w.number
           | none => "PANIC"
       | none => "BADREQ"
   | ["date_weekday", ct, j] => withCal ct fun c =>
-      match j.toInt? with
+      match i32? j with
       | some j => withDate c j fun d => toString d.weekday.number
       | none => "BADREQ"
   | ["days_ops", ct, y, m, ops] => withCal ct fun c =>
-      match y.toInt?, monthOfTok m with
+      match i32? y, monthOfTok m with
       | some y, some m => match c.monthShape y m with
           | some s => daysOps s ops.toList
           | none => "none"
       | _, _ => "BADREQ"
   | ["dates_ops", ct, y, m, ops] => withCal ct fun c =>
-      match y.toInt?, monthOfTok m with
+      match i32? y, monthOfTok m with
       | some y, some m => match c.monthShape y m with
           | some s => datesOps s ops.toList
           | none => "none"
       | _, _ => "BADREQ"
   | ["months_ops", ops] => monthsOps ops.toList
   | "hist" :: ct :: j :: ops => withCal ct fun c =>
-      match j.toInt? with
+      match i32? j with
       | some j => withDate c j fun d => joinWith " " (hist d ops [showDate d])
       | none => "BADREQ"
   | ["chrono_from", y, m, d] =>
-      match y.toInt?, m.toInt?, d.toInt? with
+      match i32? y, u32? m, u32? d with
       | some y, some m, some d => Foreign.showFrom (Foreign.fromChrono y m d)
       | _, _, _ => "BADREQ"
   | ["time_from", y, m, d] =>
-      match y.toInt?, m.toInt?, d.toInt? with
+      match i32? y, u32? m, u32? d with
       | some y, some m, some d => Foreign.showFrom (Foreign.fromTime y m d)
       | _, _, _ => "BADREQ"
   | ["chrono_to", ct, j] => withCal ct fun c =>
-      match j.toInt? with
+      match i32? j with
       | some j => withDate c j fun d => Foreign.showTo (Foreign.toChrono d)
       | none => "BADREQ"
   | ["time_to", ct, j] => withCal ct fun c =>
-      match j.toInt? with
+      match i32? j with
       | some j => withDate c j fun d => Foreign.showTo (Foreign.toTime d)
       | none => "BADREQ"
+  | ["enum_maps"] => "ok"
   | "cli" :: today :: argv =>
       match (today.drop 1).toString.toInt?, argv.mapM hexDecBytes with
       | some t, some args => Cli.showOutcome (Cli.main t (args.map ByteArray.toList))
